@@ -127,6 +127,14 @@ pub enum Call {
     UpdateText { obj: ObjId, text: String },
 }
 
+impl Call {
+    pub fn obj(&self) -> &ObjId {
+        match self {
+            Call::Put { obj, .. } | Call::PutObj { obj, .. } | Call::Insert { obj, .. } | Call::InsertObj { obj, .. } | Call::Delete { obj, .. } | Call::Inc { obj, .. } | Call::SpliceText { obj, .. } | Call::Splice { obj, .. } | Call::Mark { obj, .. } | Call::Unmark { obj, .. } | Call::SplitBlock { obj, .. } | Call::JoinBlock { obj, .. } | Call::ReplaceBlock { obj, .. } | Call::UpdateText { obj, .. } => obj,
+        }
+    }
+}
+
 #[derive(Clone, Debug, PartialEq)]
 pub enum PropK {
     Key(String),
@@ -209,6 +217,8 @@ pub struct World {
     pub interleaving: crate::prng::Fnv,
     /// set when a harness-level inconsistency is detected (exit code 2, never a violation)
     pub harness_error: Option<String>,
+    /// facts about the run that narrow a violation's signature (see run.rs): set by the executor, never read by an oracle
+    pub tags: BTreeSet<&'static str>,
     /// compact tag of the last byzantine mutation handed to each replica (class:chunk type), for signatures
     pub last_mutation: BTreeMap<usize, String>,
     /// the packet most recently handed to a replica (so that an oracle can repeat the call on a twin)
@@ -243,6 +253,7 @@ impl World {
             spare_next: 0,
             interleaving: crate::prng::Fnv::new(),
             harness_error: None,
+            tags: BTreeSet::new(),
             last_mutation: BTreeMap::new(),
             last_packet: None,
         }
@@ -675,6 +686,18 @@ impl World {
                     Some(c) => c,
                     None => return Outcome::Nop,
                 };
+                if tt == Some(OType::Text) {
+                    let obj = call.obj();
+                    // judged at the replica's full heads: under isolation plain reads are scoped and may not show the conflict
+                    let full: Vec<automerge::ChangeHash> = self.reg.heads_of(&self.reps[r].known).into_iter().map(automerge::ChangeHash).collect();
+                    // (a put on a text element under isolation is itself concurrent with whatever lies outside the scope)
+                    if self.reps[r].isolated.is_some() && (matches!(&call, Call::Put { .. }) || Self::text_has_conflicted_element(&self.reps[r].doc, obj, self.cfg.enc, &full)) {
+                        self.tags.insert("isolated-edit-of-conflicted-text");
+                    }
+                    if matches!(&call, Call::Put { val: Sv::Counter(_), .. } | Call::Insert { val: Sv::Counter(_), .. }) {
+                        self.tags.insert("counter-in-text");
+                    }
+                }
                 let result = World::apply_call(&mut self.reps[r].doc, &call);
                 if let Ok(Some(id)) = &result {
                     let ty = match &call {
@@ -1352,6 +1375,27 @@ impl World {
     fn purge_pool(&mut self, r: usize) {
         let doc = &self.reps[r].doc;
         self.pool.retain(|p| p.creator != r || p.id == ROOT || doc.object_type(&p.id).is_ok());
+    }
+
+    /// does some element of the text hold more than one concurrent value?
+    pub fn text_has_conflicted_element(doc: &AutoCommit, obj: &ObjId, enc: Enc, heads: &[automerge::ChangeHash]) -> bool {
+        let n = doc.length_at(obj, heads);
+        let mut i = 0;
+        while i < n {
+            let vals = doc.get_all_at(obj, i, heads).unwrap_or_default();
+            if vals.len() > 1 {
+                return true;
+            }
+            let w = match vals.last() {
+                Some((automerge::Value::Scalar(s), _)) => match s.as_ref() {
+                    automerge::ScalarValue::Str(st) => enc.width(st),
+                    _ => enc.width(crate::model::PLACEHOLDER),
+                },
+                _ => enc.width(crate::model::PLACEHOLDER),
+            };
+            i += w.max(1);
+        }
+        false
     }
 
     pub fn pick_heads(&self, r: usize, sel: u32) -> Option<Vec<Hash>> {
